@@ -39,6 +39,8 @@ def runEff (s : S) : MEff → S
     if v = c__ConnectionState_MQTT_CS_DISCONNECTED then { s with cstate := .disconnected }
     else if v = c__ConnectionState_MQTT_CS_CONNECTION_LOST then { s with cstate := .connectionLost }
     else s
+  | .call "_send_simple_command" [cmd] => (s.sendSimple cmd.toNat).1
+  | .setInt "_ping_t" v => { s with pingT := v.toNat }
   | .setInt "_last_msg_out" v => { s with lastOut := v.toNat }
   | .setInt "_last_msg_in" v => { s with lastIn := v.toNat }
   | _ => s
@@ -116,6 +118,29 @@ theorem fn_checkKeepalive (s : S) (ho : s.lastOut ≤ s.now) (hi : s.lastIn ≤ 
               cases hcs : s.cstate <;> simp_all
             simp [hp, this, runEffs, runEff, rcKeepalive, c__ConnectionState_MQTT_CS_CONNECTION_LOST,
               c__ConnectionState_MQTT_CS_DISCONNECTED]
+
+/-! ### `Client._send_pingreq` -/
+
+/-- **`Client._send_pingreq` as the source has it now** is what the interpreter above executes for the call `_send_pingreq()`:
+the PINGREQ goes through `_send_simple_command`, the result of that call is returned, and `_ping_t` is set to the current time
+exactly when that result is MQTT_ERR_SUCCESS - so `fn_checkKeepalive` rests on translated code for this callee too -/
+theorem fn_sendPingreq (s : S) :
+    ∃ effs, Gen.Fn.sendPingreq (s.now : Int) (s.sendSimple 0xC0).2 = .ok ((s.sendSimple 0xC0).2, effs) ∧
+      runEffs s effs = runEff s (.call "_send_pingreq" []) := by
+  have hnow := (TimerLemmas.sendSimple_fr (g := false) s 0xC0 (by simp)).1.now
+  unfold Gen.Fn.sendPingreq
+  cases hsend : s.sendSimple 0xC0 with
+  | mk s' rc =>
+    rw [hsend] at hnow
+    simp only at hnow
+    by_cases hrc : rc = 0
+    · refine ⟨[.call "_send_simple_command" [c_PINGREQ], .setInt "_ping_t" s.now], ?_, ?_⟩
+      · simp [hrc, pure, Except.pure, bind, Except.bind]
+      · simp [runEffs, runEff, c_PINGREQ, hsend, hrc, rcSuccess, hnow]
+    · refine ⟨[.call "_send_simple_command" [c_PINGREQ]], ?_, ?_⟩
+      · have : (rc == 0) = false := by rw [beq_eq_false_iff_ne]; exact hrc
+        simp [this, pure, Except.pure, bind, Except.bind]
+      · simp [runEffs, runEff, c_PINGREQ, hsend, hrc, rcSuccess]
 
 /-! ### `Client.loop_misc` -/
 
